@@ -15,7 +15,9 @@ HARNESSES = [
     ("fz_xml", "fuzz", ()),
     ("fz_xml_file", "fuzz", ("-DVIA_FILE=1",), "fz_xml"),
     ("fz_diffxml", "fuzz", ()),
+    ("c11", "rcfork", ()),
     ("c12", "rcfork", ()),
+    ("fz_typesscanf", "fuzz", ()),
     ("c13", "rcfork", ()),
     ("c14", "rcfork", ()),
     ("c15", "rcfork", ()),
@@ -98,7 +100,7 @@ def replay_one(ctx, path):
 
 
 # engine cfg.name -> source file name
-ALIASES = {"c01_load": "c01", "c02_history": "c02", "c03_bitmap": "c03", "c05_xml": "c05", "c06_xmlmut": "c06", "c07_synthetic": "c07", "c08_restrict": "c08", "c12_dup": "c12", "c13_distances": "c13", "c14_memattrs": "c14", "c15_cpukinds": "c15", "c16_diff": "c16", "c04_strings": "c04"}
+ALIASES = {"c01_load": "c01", "c02_history": "c02", "c03_bitmap": "c03", "c05_xml": "c05", "c06_xmlmut": "c06", "c07_synthetic": "c07", "c08_restrict": "c08", "c11_types": "c11", "c12_dup": "c12", "c13_distances": "c13", "c14_memattrs": "c14", "c15_cpukinds": "c15", "c16_diff": "c16", "c04_strings": "c04"}
 
 
 def C01(ctx):
@@ -217,4 +219,11 @@ def C07(ctx):
                                 rule="libFuzzer bytes -> NUL-terminated description in an exactly-sized heap block; set_synthetic returns 0 or -1/EINVAL, accepted small descriptions load into well-formed topologies and export obeys the length contract; non-trivial = accepted and loaded with depth >= 4 (distinct counted in-target)")])
 
 
-PROPS = {"C01": C01, "C07": C07, "C06": C06, "C05": C05, "C16": C16, "C14": C14, "C13": C13, "C15": C15, "C08": C08, "C12": C12, "C02": C02, "C03": C03, "C04": C04}
+def C11(ctx):
+    std_check(ctx, [dict(harness="c11", aliases=["c11_types"], cases=(120, 5000), max_ops=1)])
+    run_fuzz_targets(ctx, [dict(name="fz_typesscanf", seconds=(15, 300), workers=(6, 8), max_len=64, seeds=[b"L2iCache", b"OS[GPU,CoProc]", b"Group3", b"HostBridge", b"PCIBridge", b"node", b"pu"],
+                                rule="libFuzzer bytes -> hwloc_type_sscanf on an exactly-sized heap block with a guarded attribute buffer; returns 0/-1, a returned type is valid and printing an object of that type/attributes parses back; non-trivial = accepted strings (distinct counted in-target)")])
+    ctx.extra["exhaustive_slices"] = {"compare_types": "all %d x %d type pairs" % (20, 20), "parser": "32 names x 255 next bytes x 3 suffixes = 24480 calls", "where": "named case 'exhaustive' in the replay tier (runs on every check) and on a 4% sample of generated cases"}
+
+
+PROPS = {"C01": C01, "C11": C11, "C07": C07, "C06": C06, "C05": C05, "C16": C16, "C14": C14, "C13": C13, "C15": C15, "C08": C08, "C12": C12, "C02": C02, "C03": C03, "C04": C04}
